@@ -42,6 +42,7 @@ Proof.
   rewrite (eqb_false (len es) 0) by lia.
   rewrite enc_ok_valid, enc_ok_not_none by exact He. cb.
   change (is_valid_TopoEntity 1) with true. cb.
+  rewrite (topo_product_exact 2 (len es)) by lia.
   rewrite elem_size_ok by exact He. rewrite wrap64_small by nia.
   rewrite (eqb_true (len data)) by lia. cb.
   rewrite validate_span_val by lia. cb.
@@ -93,7 +94,7 @@ Definition valences_step (valence venc count : Z) (d6 : dec) : R (option (list Z
   then if venc =? IntEncoding_None then state_error S_ErrorInvalidFile
        else do r0 <- read_n_ints venc count (fun x => Ret x) d6;
             let (vals, d7) := r0 in Ret (Some vals, fold_left Z.add vals 0, d7)
-  else Ret (None, valence * count, d6).
+  else Ret (None, (valence * count) mod 2 ^ topo_product_bits, d6).
 
 Definition items_step (vals : option (list Z)) (count valence henc : Z) (mk : Z -> R Z)
   (add : list Z -> list (list Z) -> R (option (list Z))) (d7 : dec) : R (list (list Z) * dec) :=
@@ -103,11 +104,12 @@ Definition items_step (vals : option (list Z)) (count valence henc : Z) (mk : Z 
   end.
 
 Lemma poly_valences f items r (count : Z) :
-  count = len items -> form_ok f items ->
+  count = len items -> len items < 4294967296 -> form_ok f items ->
   valences_step (form_valence f) (form_venc f) count (valence_data f items ++ r) = Ret (form_vals f items, hsum items, r).
 Proof.
-  intros -> Hf. unfold valences_step. destruct f as [v|venc]; cbn [form_valence form_venc form_vals valence_data form_ok] in *.
+  intros -> Hlt Hf. unfold valences_step. destruct f as [v|venc]; cbn [form_valence form_venc form_vals valence_data form_ok] in *.
   - destruct Hf as [Hv1 Hv2]. rewrite (eqb_false v 0) by lia. cbn [app].
+    rewrite (topo_product_exact v (len items)) by (pose proof (len_nonneg items); lia).
     rewrite (hsum_const items v Hv2). do 3 f_equal. lia.
   - destruct Hf as [He Hl]. cbn [Z.eqb]. rewrite enc_ok_not_none by exact He.
     rewrite read_n_ints_id'; [| rewrite len_map; reflexivity | exact He |].
@@ -176,7 +178,7 @@ Proof.
     lazymatch X with (if form_valence f =? 0 then _ else _) =>
       let G := context C [bind (valences_step (form_valence f) (form_venc f) (len items) (valence_data f items ++ data ++ [])) k] in
       change G end end.
-  rewrite (poly_valences f items (data ++ []) (len items) eq_refl Hf). cb.
+  rewrite (poly_valences f items (data ++ []) (len items) eq_refl Hlen Hf). cb.
   rewrite elem_size_ok by exact He. rewrite wrap64_small by lia.
   rewrite (eqb_true (len (data ++ []))) by (rewrite app_nil_r; lia). cb.
   rewrite validate_span_val by lia. cb.
@@ -225,7 +227,7 @@ Proof.
     lazymatch X with (if form_valence f =? 0 then _ else _) =>
       let G := context C [bind (valences_step (form_valence f) (form_venc f) (len items) (valence_data f items ++ data ++ [])) k] in
       change G end end.
-  rewrite (poly_valences f items (data ++ []) (len items) eq_refl Hf). cb.
+  rewrite (poly_valences f items (data ++ []) (len items) eq_refl Hlen Hf). cb.
   rewrite elem_size_ok by exact He. rewrite wrap64_small by lia.
   rewrite (eqb_true (len (data ++ []))) by (rewrite app_nil_r; lia). cb.
   rewrite validate_span_val by lia. cb.
